@@ -948,11 +948,26 @@ func (x *c12run) evalEqual(v types.Value, knownCls string) {
 	}
 	cls := knownCls
 	if cls == "" {
+		// the two repaired classes are attributed by repair: the value with that one feature rewritten away must survive
+		// MarshalCedar -> parse -> Eval (a value that merely contains the feature and fails for another reason keeps the generic class)
 		cls = "marshalcedar-eval-not-equal"
+		survives := func(w types.Value) bool {
+			var src2 []byte
+			if p := vh.Protect(func() { src2 = w.MarshalCedar() }); p != nil {
+				return false
+			}
+			got2, err2 := evalRendered(src2)
+			return err2 == nil && got2 != nil && got2.Equal(w) && w.Equal(got2)
+		}
 		switch {
-		case strings.ContainsRune(string(src), utf8.RuneError):
+		case strings.ContainsRune(string(src), utf8.RuneError) && survives(c12MapStrings(v, func(s string) string { return strings.ReplaceAll(s, string(utf8.RuneError), "X") }, nil)):
 			cls = clsStringFFFD
-		case hasGoQuotedKey(v):
+		case hasGoQuotedKey(v) && survives(c12MapStrings(v, nil, func(i int, k string) string {
+			if hasGoQuotedKey(types.NewRecord(types.RecordMap{types.String(k): types.Long(0)})) {
+				return fmt.Sprintf("k%d", i)
+			}
+			return k
+		})):
 			cls = clsRecordKeyQuote
 		}
 	}
@@ -968,6 +983,45 @@ func oneLineC12(s string) string {
 
 // hasGoQuotedKey: some record key is rendered by strconv.Quote with an escape that is not Cedar syntax
 // (\a \b \f \v \xNN \uNNNN \UNNNNNNNN).
+// c12MapStrings rebuilds v with str applied to every string (string values, entity ids, record keys) and key applied to
+// every record key (i = index of the key in the sorted key list of its record); nil = identity.
+func c12MapStrings(v types.Value, str func(string) string, key func(i int, k string) string) types.Value {
+	if str == nil {
+		str = func(s string) string { return s }
+	}
+	switch t := v.(type) {
+	case types.String:
+		return types.String(str(string(t)))
+	case types.EntityUID:
+		return types.NewEntityUID(t.Type, types.String(str(string(t.ID))))
+	case types.Set:
+		var ms []types.Value
+		for m := range t.All() {
+			ms = append(ms, c12MapStrings(m, str, key))
+		}
+		return types.NewSet(ms...)
+	case types.Record:
+		ks := vh.SortedKeys(t)
+		m := types.RecordMap{}
+		for i, k := range ks {
+			val, _ := t.Get(k)
+			nk := str(string(k))
+			if key != nil {
+				nk = key(i, nk)
+			}
+			for {
+				if _, dup := m[types.String(nk)]; !dup {
+					break
+				}
+				nk += "_"
+			}
+			m[types.String(nk)] = c12MapStrings(val, str, key)
+		}
+		return types.NewRecord(m)
+	}
+	return v
+}
+
 func hasGoQuotedKey(v types.Value) bool {
 	switch t := v.(type) {
 	case types.Record:
